@@ -66,6 +66,7 @@ def parseScalar (s : String) : Option Scalar :=
       else if k == "f" then some (.float v)
       -- `sizeof(<template><uint>(1u))`: value 4; the instantiation it leaves in the module is `instancesOf`
       else if k == "z" then some (.sizeofInst v)
+      else if k == "v" then some .nonConst
       else if k == "b" then some (.bool (v == "1"))
       else none
     | [] => none
